@@ -191,7 +191,7 @@ fn drop_insignificant(o: &Obs) -> Obs {
 pub fn suite_pkgrules(ctx: &Ctx, thorough: bool) {
     let mut names: Vec<String> = all_scalars().map(|c| c.to_string()).collect();
     names.extend(short_strings(&['a', 'A', '1', '-', '_', '.', 'Æ', 'ǅ'], if thorough { 6 } else { 4 }));
-    names.extend(scaled_words(thorough, &["a", "A", "é", "-", "a_"], &["A", "Æ", "ǅ", "İ", "_.", "-", "--", "."]));
+    names.extend(scaled_words(thorough, &["a", "A", "é", "É", "Σ", "-", "a_"], &["A", "Æ", "ǅ", "İ", "Σ", "ΑΣ", "Σ.", "_.", "-", "--", "."]));
     let types = all_package_types();
     par_for(names.len(), &|i| {
         let name = &names[i];
@@ -212,6 +212,11 @@ pub fn suite_pkgrules(ctx: &Ctx, thorough: bool) {
                     }
                     if p.namespace() != Some("ns") || p.version() != Some("1") || p.subpath() != Some("s") || !p.qualifiers().is_empty() {
                         ctx.violate("C08.frame", "namespace, version, qualifiers, subpath untouched", inp(), format!("{:?}", Obs::of(&p)), "ns/1/s".into());
+                    }
+                    // C10: re-building the value is the identity (the name rule is idempotent)
+                    match guarded(|| p.clone().into_builder().build()) {
+                        Ok(Ok(p2)) if p2 == p && p2.to_string() == p.to_string() => {},
+                        other => ctx.violate("C10.rebuild", "re-building is the identity", inp(), format!("{:?}", other.map(|r| r.map(|q| Obs::of(&q)))), format!("{:?}", Obs::of(&p))),
                     }
                     // same through the parser
                     let text = format!("pkg:{}/ns/{}@1#s", tn, refimpl::enc(Comp::Name, name));
@@ -245,7 +250,7 @@ pub fn suite_pkgrules(ctx: &Ctx, thorough: bool) {
 pub fn suite_lower(ctx: &Ctx, thorough: bool) {
     let mut inputs: Vec<String> = all_scalars().map(|c| c.to_string()).collect();
     inputs.extend(short_strings(&['a', 'A', '1', '-', '_', '.', 'Æ', 'ǅ', 'İ'], if thorough { 6 } else { 4 }));
-    inputs.extend(scaled_words(thorough, &["a", "A", "é", "-", "a_"], &["A", "Æ", "ǅ", "İ", "_.", "-", "--", "."]));
+    inputs.extend(scaled_words(thorough, &["a", "A", "é", "É", "Σ", "-", "a_"], &["A", "Æ", "ǅ", "İ", "Σ", "ΑΣ", "Σ.", "_.", "-", "--", "."]));
     par_for(inputs.len(), &|i| {
         let s = &inputs[i];
         ctx.eval();
@@ -368,6 +373,10 @@ pub fn suite_names(ctx: &Ctx, thorough: bool) {
             cands.push(inflate(n, len)); cands.push(format!("{n}{}", inflate(" ", len))); cands.push(format!("{}{n}", inflate("a", len)));
             cands.push(format!("{n}{}", inflate("\0", len))); cands.push(inflate(&n.to_uppercase(), len));
         }
+    }
+    // multi-byte strings: few characters, many bytes (and the reverse), every length up to 40 characters
+    for f in ["é", "ａ", "İ", "\u{10000}", "n\u{301}"] {
+        for k in 1..=40usize { cands.push(f.repeat(k)); cands.push(format!("npm{}", f.repeat(k))); cands.push(format!("{}pypi", f.repeat(k))); }
     }
     par_for(cands.len(), &|i| {
         let v = &cands[i];
